@@ -174,5 +174,33 @@ claim('C18', 'Lean theorems: pending-wrapper invariant along any stretch of non-
       FLOAT_NOTE + 'datetime() validity is modelled by an explicit calendar (leap years, ranges).',
       'DESIGN.md §5 C18')
 
-for p in ['C02', 'C08']:
-    PENDING[p] = 'check under construction in this commit (model exists, theorems and harness not yet registered); will be claimed at proof level'
+claim('C08', 'Lean theorems over all payloads of all 35 tables (field-level decode-encode-decode lemmas per ITU kind, table-generic induction along the cursor; enum / rate-of-turn side conditions kernel-decided on regenerated tables) + differential execution on every class x every boundary length x sentinel sweeps',
+      'C08_idempotent (for every class of the source and every payload ending on a field boundary or inside its '
+      'variable-length tail, sub-character padding zero: decode, to_bitarray, decode again yields the identical '
+      'message, except a variable-length text that decodes to the empty string - findings F12/F13 with kernel-checked '
+      'witness) and C08_bit_exact (if no present field is normalised - enum raw is a member, text canonical on the '
+      'wire, rate of turn a fixed point - the re-encoded payload is bit for bit the received one, except the '
+      'sub-character padding bits of a text field of ragged width - findings F27/F28 with witnesses); tables_rt, '
+      'enum_rt_ok, rot_tables_ok decided by the kernel on the tables regenerated from source. Tie: from_bitarray / '
+      'to_bitarray of pyais vs the model on every class x boundary length x per-field raw sweeps (all 256 rate-of-turn '
+      'values, all enum codes); pyais is checked directly for idempotence and, with an exactness predicate written '
+      'from the standard, for bit exactness.',
+      FLOAT_NOTE + 'Float fields are exact decimals in the model (IEEE rounding inside round()/division modelled in '
+      'exact arithmetic; validated exhaustively for the 8-bit rate of turn and on sentinel sweeps elsewhere).',
+      'DESIGN.md §5 C08')
+
+claim('C02', 'Lean theorems: whole-path round trip encode_msg -> sentences -> decode() for every wire-representable message of every layout (composition of C08 bit exactness, C09 acceptance, C01 variant selection), encode_dict = create + encode_msg, quantisation laws by integer arithmetic + differential execution on in-range assignments for all 35 classes through all three entry points',
+      'C02_roundtrip_wire (any layout, any payload of nominal length whose fields are not normalised, m = the decoded '
+      'message, i.e. m ranges over all wire-representable messages of that class/variant: encode_msg(m) with any '
+      'admissible talker/channel yields sentences that decode() maps back to exactly m - same class and every field '
+      'equal), C02_encode_dict (encode_dict with `type` or `msg_type` is create followed by encode_msg), C02_create '
+      '(create with all fields given builds exactly those values), C02_quantisation_positions/_decode/_tenths '
+      '(encode rounds positions to the nearest wire step, at most half a step; decode yields the nearest six-decimal '
+      'number; tenths are truncated toward zero, less than one step), C02_representable_fixed (wire-representable '
+      'values come back unchanged); known findings F15-F26 carry kernel-checked witnesses. Tie: encode_dict / '
+      'encode_msg / decode of pyais vs the model on seeded in-range assignments of all 35 classes via `type`, '
+      '`msg_type` and create(); pyais is checked directly against expected values computed from the standard.',
+      FLOAT_NOTE + 'The theorem quantifies over messages in the image of decoding (wire-representable values); '
+      'arbitrary in-range scaled values are covered by the quantisation theorems in exact arithmetic, not IEEE '
+      'arithmetic (float gap validated by the correspondence run).',
+      'DESIGN.md §5 C02')
